@@ -8,6 +8,7 @@ import (
 	"time"
 
 	"github.com/ipni/go-libipni/announce"
+	"github.com/ipni/go-libipni/announce/gossiptopic"
 	"github.com/ipni/go-libipni/announce/message"
 	"github.com/ipni/go-libipni/announce/p2psender"
 	"github.com/libp2p/go-libp2p/core/host"
@@ -64,7 +65,22 @@ func runC16P(r *simkit.Run, c Cfg) {
 		}
 		return true
 	}
-	rc, err := announce.NewReceiver(pw.recv, "ipni-test", announce.WithAllowPeer(allow), announce.WithResend(tp.Chance(1, 2, "resend")))
+	ropts := []announce.Option{announce.WithAllowPeer(allow), announce.WithResend(tp.Chance(1, 2, "resend"))}
+	rhost := pw.recv
+	if tp.Chance(1, 6, "topicNoHost") {
+		// a receiver given an existing topic but no libp2p host: it has no
+		// watcher, and Close must not wait for one
+		rtopic, rcancel, err := gossiptopic.MakeTopic(pw.recv, "ipni-test")
+		if err != nil {
+			r.Violate("c16.setup", "MakeTopic: %v", err)
+			return
+		}
+		defer rcancel()
+		ropts = append(ropts, announce.WithTopic(rtopic))
+		rhost = nil
+		r.Probe("receiver-with-topic-and-no-host")
+	}
+	rc, err := announce.NewReceiver(rhost, "ipni-test", ropts...)
 	if err != nil {
 		r.Violate("c16.setup", "NewReceiver: %v", err)
 		return
